@@ -45,6 +45,8 @@ enum Stratum {
     Names(Vec<String>),
     /// header fields that satisfy a loader's own length equation with extreme operands (two or three cooperating fields)
     Equations(Vec<(Vec<u8>, String)>),
+    /// explicit files (name, bytes, description): inputs found by reading the loaders
+    Explicit(Vec<(String, Vec<u8>, String)>),
 }
 
 struct Load {
@@ -202,6 +204,53 @@ fn psf2_equation_cases() -> Vec<(Vec<u8>, String)> {
     out
 }
 
+fn explicit_cases() -> Vec<(String, Vec<u8>, String)> {
+    use base64::Engine as _;
+    let b64 = |d: &[u8]| base64::engine::general_purpose::STANDARD.encode(d);
+    let mut v: Vec<(String, Vec<u8>, String)> = Vec::new();
+    let sixel = b"\x1bPq#1;2;100;0;0#1~~~-~~~\x1b\\".to_vec();
+    // a font of degenerate size loaded into slot 0 .. 2 by the file itself, then a sixel image (its cell size comes from font 0)
+    let mut fonts: Vec<(String, Vec<u8>)> = vec![("PSF1 charsize 0".into(), vec![0x36, 0x04, 0, 0])];
+    for (w, h) in [(0u32, 0u32), (0, 16), (8, 0), (0xFFFF_FFFF, 0xFFFF_FFFF), (0x7FFF_FFFF, 0x7FFF_FFFF), (8, 0xFFFF_FFFF), (0x10000, 0x10000)] {
+        let mut d = Vec::new();
+        for x in [0x864a_b572u32, 0, 32, 0, 0, 0, h, w] {
+            d.extend(x.to_le_bytes());
+        }
+        fonts.push((format!("PSF2 without glyphs, width {w:#x} height {h:#x}"), d));
+    }
+    for (name, f) in &fonts {
+        for slot in [0, 1] {
+            for ext in ["ans", "avt", "pcb", "xyz"] {
+                let mut b = format!("\x1bPCTerm:Font:{slot}:{}\x1b\\", b64(f)).into_bytes();
+                b.extend(b"A");
+                b.extend(&sixel);
+                b.extend(b"B\r\n");
+                v.push((format!("x.{ext}"), b, format!("font ({name}) into slot {slot}, then text and a sixel image, as .{ext}")));
+            }
+        }
+    }
+    // few bytes, no printable character: cursor jumps and line inserts under a SAUCE record that declares an extreme height
+    // (a declared width of up to 1000 columns is a screen dimension the loader accepts; the budgets are calibrated for 132 columns, so the
+    // extreme heights are combined with ordinary widths)
+    for (t1, t2) in [(80u16, 65535u16), (80, 0), (132, 65535), (65535, 65535), (0, 0), (1, 1)] {
+        for body in ["\x1b[99999B\x1b[L", "\x1b[99999B\x1b[99999L", "\x1b[99999;99999H\x1b[99999@", "\x1b[99999B\n\n\n", "\x1b[99999E\x1b[99999M", "\x1b[99999d\x1b[99999S\x1b[99999T"] {
+            let mut b = body.repeat(3).into_bytes();
+            b.push(0x1A);
+            b.extend(sauce_record(1, 1, 0, t1, t2, 0, b"", b"20240101"));
+            v.push(("x.ans".into(), b, format!("{:?} x3 under a SAUCE record {t1} x {t2}", body)));
+        }
+    }
+    // IcyDraw layer records with extreme 64 bit data lengths
+    for len in [u64::MAX, u64::MAX - 1, 1 << 63, (1 << 63) - 1, 1 << 32, (1 << 32) - 1, u32::MAX as u64 - 40] {
+        for role in [0u8, 1] {
+            let l = vharness::icy::LayerRec { role, w: 2, h: 2, data: vharness::icy::short_cell(0, b'a', 7, 0, 0), declared_len: Some(len), ..Default::default() };
+            let chunks = vec![("ICED".to_string(), vharness::icy::iced_header(2, 2)), ("LAYER_0".to_string(), l.bytes()), ("END".to_string(), vec![])];
+            v.push(("x.icy".into(), vharness::icy::build_png(&chunks), format!("IcyDraw layer (role {role}) declaring a data length of {len:#x}")));
+        }
+    }
+    v
+}
+
 fn build(prop: &str, tier: &str) -> Load {
     let thorough = tier == "thorough";
     let c03 = prop == "C03";
@@ -233,6 +282,7 @@ fn build(prop: &str, tier: &str) -> Load {
     }
     // both for C02 (no panic) and for C03 (cost): header fields that solve the loader's own length equation
     strata.push(Stratum::Equations(psf2_equation_cases()));
+    strata.push(Stratum::Explicit(explicit_cases()));
     let mut out = Vec::new();
     let mut total = 0u64;
     for s in strata {
@@ -244,6 +294,7 @@ fn build(prop: &str, tier: &str) -> Load {
             Stratum::Tokens { toks, depth, .. } => (toks.len() as u64).pow(*depth),
             Stratum::Names(v) => v.len() as u64,
             Stratum::Equations(v) => v.len() as u64,
+            Stratum::Explicit(v) => v.len() as u64,
         };
         out.push((s, n, total));
         total += n;
@@ -272,11 +323,16 @@ fn run_target(t: &Target, bytes: &[u8]) -> (Result<u64, vharness::PanicRec>, Opt
         },
         Target::Palettes => {
             let mut code = 0;
-            for f in [PaletteFormat::Hex, PaletteFormat::Pal, PaletteFormat::Gpl, PaletteFormat::Ice, PaletteFormat::Txt] {
+            for f in [PaletteFormat::Hex, PaletteFormat::Pal, PaletteFormat::Gpl, PaletteFormat::Ice, PaletteFormat::Txt, PaletteFormat::Ase] {
                 code = code * 3 + match Palette::load_palette(&f, bytes) {
                     Ok(p) => 1 + (p.len() > 0) as u64,
                     Err(_) => 0,
                 };
+            }
+            // the binary palette constructors the loaders use (8 bit and 6 bit triples)
+            if bytes.len() <= 64 {
+                code = code * 3 + Palette::from(bytes).len() as u64 % 3;
+                code = code * 3 + Palette::from_63(bytes).len() as u64 % 3;
             }
             1000 + code
         }
@@ -326,6 +382,10 @@ impl Load {
                     }
                 }
                 v
+            }
+            Stratum::Explicit(v) => {
+                let (name, bytes, d) = &v[i as usize];
+                vec![Case { target: Target::File(name.clone()), bytes: bytes.clone(), key: "explicit-file".into(), desc: d.clone() }]
             }
             Stratum::Equations(v) => {
                 let (bytes, d) = &v[i as usize];
@@ -473,6 +533,7 @@ impl Engine for Load {
                 Stratum::Tokens { .. } => "control token streams (depth 1 and 2) as files of the text formats",
                 Stratum::Names(_) => "file names without / with odd extensions",
                 Stratum::Equations(_) => "PSF2 headers whose fields solve the loader's length equation with extreme operands",
+                Stratum::Explicit(_) => "explicit files: fonts of degenerate size followed by a sixel image, sparse cursor jumps under a SAUCE record with an extreme height, IcyDraw layer records with extreme 64 bit lengths",
             };
             let e = m.entry(k).or_insert((0, 0));
             e.0 += 1;
